@@ -1,6 +1,7 @@
 package props
 
 import (
+	"math"
 	"context"
 	"encoding/json"
 	"fmt"
@@ -30,7 +31,7 @@ type mChild struct {
 	Lag    int       `json:"lag,omitempty"` // milliseconds of simulated time before each emission (a slow child)
 	Reqs   [][]mEmit `json:"reqs"`          // emissions for the k-th REQ this child receives
 	OKs    []int     `json:"oks"`           // verdict for the k-th EVENT: 0 accept, 1.. reject with reason r<child>.<n>
-	Counts []int     `json:"counts"`
+	Counts []uint64  `json:"counts"`
 }
 
 type MergeCase struct {
@@ -210,7 +211,7 @@ func (mergeEngine) Gen(t *rapid.T, tier string) any {
 			ch.OKs = append(ch.OKs, v)
 		}
 		for q := 0; q < nCnt; q++ {
-			ch.Counts = append(ch.Counts, rapid.IntRange(0, 5).Draw(t, "count"))
+			ch.Counts = append(ch.Counts, rapid.SampledFrom([]uint64{0, 1, 2, 3, 4, 5, 5, 1 << 62, 1 << 63, 1<<63 + 10, math.MaxUint64 - 1, math.MaxUint64}).Draw(t, "count"))
 		}
 		c.Children = append(c.Children, ch)
 	}
@@ -218,7 +219,7 @@ func (mergeEngine) Gen(t *rapid.T, tier string) any {
 		// same verdicts and counts as child ci%4, and of its stream only how each
 		// stored phase ends
 		src := c.Children[ci%4]
-		ch := mChild{Style: src.Style, OKs: append([]int(nil), src.OKs...), Counts: append([]int(nil), src.Counts...)}
+		ch := mChild{Style: src.Style, OKs: append([]int(nil), src.OKs...), Counts: append([]uint64(nil), src.Counts...)}
 		for _, em := range src.Reqs {
 			var cp []mEmit
 			for _, e := range em {
@@ -317,11 +318,11 @@ func (s *mStub) reactions(m mocrelay.ClientMsg) []*mRec {
 	case *mocrelay.ClientCountMsg:
 		k := s.nCnt
 		s.nCnt++
-		n := 0
+		n := uint64(0)
 		if k < len(s.plan.Counts) {
 			n = s.plan.Counts[k]
 		}
-		add(-3, mocrelay.NewServerCountMsg(m.SubscriptionID, uint64(n), nil), k)
+		add(-3, mocrelay.NewServerCountMsg(m.SubscriptionID, n, nil), k)
 	case *mocrelay.ClientCloseMsg:
 		s.gotClose[m.SubscriptionID] = append(s.gotClose[m.SubscriptionID], s.sim.Stamp())
 	}
